@@ -5,6 +5,7 @@ import errno
 import gc
 import os
 import socket
+import threading
 import typing
 import warnings
 
@@ -166,6 +167,111 @@ def one(chk: Check, site: driver.Site, root: str, label: str, view: str, sel: by
     if leaked_nogc and not leaked:
         chk.count("fds_closed_only_by_gc", len(leaked_nogc))
     return r, writes, failures, leaked, [w for w in rw.seen if "unclosed file" in w and (root in w or "name=" in w)]
+
+
+class _GatedPlain(socket.socket):
+    """Server-side socket of the healthy neighbour: announces its first write and then holds it until told to go on."""
+    entered: typing.Optional[threading.Event] = None
+    go_on: typing.Optional[threading.Event] = None
+    first = True
+
+    def __init__(self, sock):  # noqa
+        socket.socket.__init__(self, sock.family, sock.type, sock.proto, fileno=sock.detach())
+
+    def sendall(self, data, *a):  # noqa
+        if self.first:
+            self.first = False
+            self.entered.set()
+            self.go_on.wait(10)
+        return super().sendall(data, *a)
+
+
+class _FaultyWaiting(FaultyPlain):
+    """Fails like FaultyPlain, but not before the neighbour is inside its own handler."""
+    neighbour_entered: typing.Optional[threading.Event] = None
+
+    def sendall(self, data, *a):  # noqa
+        if self.fail_after is not None and self.writes >= self.fail_after and not self.failures:
+            self.neighbour_entered.wait(10)
+        return super().sendall(data, *a)
+
+
+def overlapping_failures(chk: Check, site: driver.Site) -> None:
+    """Two connections at once in one process (the threading server): A's connection fails while B's request is being
+    handled.  The failure is A's: every EXCEPTION line carries A's address, none B's, none an unknown one."""
+    A, B = ("10.1.1.1", 1111), ("10.2.2.2", 2222)
+    combos = [("document", "gopher", b"/small.txt"), ("menu", "gopher", b"/menu"), ("document", "spartan", b"/small.txt"),
+              ("info", "gopherp$", b"/menu"), ("document", "http", b"/small.txt"), ("zip-member", "gopher", b"/arch.zip/member.txt")]
+    for label, view, sel in combos:
+        for ek in ("EPIPE", "ECONNRESET", "timeout"):
+            for k in (0, 1):
+                entered, go_on = threading.Event(), threading.Event()
+                req, _ = reqs.render(view, sel)
+                breq, _ = reqs.render("gopher", b"/menu")
+
+                def serve(request, addr, wrap):
+                    s_srv, s_cli = socket.socketpair()
+                    s_cli.settimeout(20)
+
+                    def client():
+                        try:
+                            s_cli.sendall(request)
+                            s_cli.shutdown(socket.SHUT_WR)
+                            while s_cli.recv(65536):
+                                pass
+                        except OSError:
+                            pass
+                        finally:
+                            s_cli.close()
+                    ct = threading.Thread(target=client, daemon=True)
+                    ct.start()
+                    site.server.process_request_thread(wrap(s_srv), addr)
+                    ct.join(25)
+
+                made = {}
+
+                def wrap_a(sock):
+                    fs = _FaultyWaiting(sock)
+                    fs.fail_after, fs.error_kind, fs.neighbour_entered = k, ek, entered
+                    made["a"] = fs
+                    return fs
+
+                def wrap_b(sock):
+                    g = _GatedPlain(sock)
+                    g.entered, g.go_on = entered, go_on
+                    return g
+
+                with site._loglock:
+                    site._log.clear()
+                site._escaped.clear()
+                tb = threading.Thread(target=serve, args=(breq, B, wrap_b), daemon=True)
+                tb.start()
+                serve(req, A, wrap_a)          # returns when A's handler is done with its failure
+                go_on.set()
+                tb.join(30)
+                with site._loglock:
+                    log = list(site._log)
+                chk.count("overlapping_connection_pairs")
+                if not made["a"].failures:
+                    chk.count("overlapping_pairs_whose_response_was_complete_before_the_fault")
+                    continue
+                exc_lines = [ln for ln in log if "EXCEPTION" in ln]
+                sample = {"kind": label, "view": view, "selector": sel, "error": ek, "fail_at_write": k, "failing_client": A[0],
+                          "neighbour": B[0], "log": log[:6], "escaped": site._escaped[:1]}
+                if not entered.is_set():
+                    chk.note_inconclusive("the neighbour connection never reached its first write")
+                    return
+                if site._escaped:
+                    chk.witness("C20/exception-left-the-handler:overlapping", sample)
+                    return
+                foreign = [ln for ln in exc_lines if not ln.startswith(A[0] + " ")]
+                if foreign:
+                    chk.witness("C20/failure-logged-under-another-address", dict(sample, lines=foreign[:3]))
+                    return
+                if not any(ln.startswith(A[0] + " ") and "EXCEPTION " + ERROR_CLASS[ek] in ln for ln in exc_lines):
+                    chk.witness("C20/failure-not-logged-under-its-own-class:%s" % ek, dict(sample, overlapping=True))
+                    return
+                chk.case(("overlapping", label, view, ek, k), sample if k == 0 and ek == "EPIPE" else None)
 
 
 def real_resets(chk: Check, sc: Scratch, nresets: int) -> None:
@@ -331,6 +437,13 @@ def main() -> int:
                             chk.witness("C20/file-finalised-unclosed:%s" % label, dict(sample, warnings=unclosed[:2]))
                             continue
                         chk.case((label, view, ek, k), sample if chk.evaluations % 499 == 0 else None)
+            import io
+            import sys
+            old_stderr, sys.stderr = sys.stderr, io.StringIO()      # (the server prints the tracebacks of failed writes)
+            try:
+                overlapping_failures(chk, site)
+            finally:
+                sys.stderr = old_stderr
         finally:
             site.close()
         real_resets(chk, sc, 16 if quick else 200)
